@@ -114,7 +114,8 @@ def run_one(exe, d, cf, seed):
         per = (False, False, False) if rad else (True, True, True)
         p = rhdparams.rhd_param(d, ncell=(16, 8, 8) if cf.get("aniso") else (8, 8, 8), nsub=(2, 2, 2), periodic=per, total_time=1.0e-3,
                                 radiation=rad, nphoton=2000, niter=2, seed=seed, dump_every_step=cf["mode"] == "restart",
-                                max_backups=cf["maxb"], extra=extra + blocks + ("  do stellar feedback: true\n" if cf.get("sn") else ""),
+                                diffuse=0.4 if cf.get("rdiff") == 1 else None,
+                                max_backups=cf["maxb"], extra=extra + ("  diffuse field: true\n" if cf.get("rdiff") == 2 else "") + blocks + ("  do stellar feedback: true\n" if cf.get("sn") else ""),
                                 source_block=("PhotonSourceDistribution:\n  type: SingleSupernova\n  position: [0.4 m, 0.6 m, 0.55 m]\n"
                                               "  lifetime: 1.e-12 s\n  luminosity: 1.e46 s^-1\n  energy: 1.e-9 J\n") if cf.get("sn") else None)
         txt = open(p).read().replace("type: AsciiFile", "type: Gadget").replace("  snapshot time: -1 s\n", "" if cf["snaps"] else "  snapshot time: -1 s\n")
@@ -206,6 +207,8 @@ def run(c):
                     must.append(rng.choice([x for x in cand if x["first"] == fs]))
             if mode == "rhdrad":
                 must.append(rng.choice([x for x in cand if x["sn"] == 1]))
+                for rdf in (1, 2):
+                    must.append(rng.choice([x for x in cand if x["rdiff"] == rdf and x["sn"] == 0]))
             if mode == "restart":
                 for mb in (2, 3):
                     must.append(rng.choice([x for x in cand if x["maxb"] == mb]))
